@@ -741,7 +741,7 @@ class TlWorld(HistoryWorld):
             return
         want = norm(ref, c.result, value)
         if op['dir'] == 'lib->peer':
-            ok, got = call(sch.serialize, lsch, value)
+            ok, got = call(sch.serialize, schema=lsch, data=value) if len(wire) % 2 else call(sch.serialize, lsch, value)
             ctx.evaluated(1)
             if not ok:
                 self.V(ctx, 'serialize-raises', 'serialize', self._raise_class(st, c, value, order), 'serialising a well-typed %s raised %r' % (c.name, got))
